@@ -20,7 +20,8 @@ LEVEL = "exploration"
 ASSUMPTIONS = [
     "trees are drawn from: per-element products (child sequences <= 2-3, content menu, attribute menu), all trees within "
     "1-2 mutations of DFA-generated valid trees and of tests/data/eml.xml, and chains up to depth 100",
-    "content values are Unicode scalar strings (lone surrogates excluded)",
+    "content values are Unicode strings including lone surrogates",
+    "every repeatable child of every rule repeated 65 and 300 times",
 ]
 
 UNKNOWN_NAMES = ["zzUnknownElement", "", "eml:eml"]
